@@ -32,7 +32,7 @@ use crate::sc::pase::spake2p::{
     SPAKE2P_VERIFIER_SALT_LEN, SPAKE2P_VERIFIER_SALT_MIN_LEN,
 };
 use crate::sc::{complete_with_status, GeneralCode, OpCode, SCStatusCodes, StatusReport};
-use crate::tlv::{FromTLV, OctetStr, TLVElement, TagType, ToTLV};
+use crate::tlv::{get_root_node_struct, FromTLV, OctetStr, TagType, ToTLV};
 use crate::transport::exchange::Exchange;
 use crate::transport::session::{ReservedSession, SessionMode};
 use crate::utils::storage::ReadBuf;
@@ -200,7 +200,9 @@ impl<C: Crypto> PaseInitiator<C> {
         }
 
         // Parse response
-        let resp = PBKDFParamResp::from_tlv(&TLVElement::new(rx.payload()))?;
+        // Like the responder (and both CASE roles): the structure must be properly terminated and span
+        // the whole payload - a message whose envelope was damaged or extended in flight is not processed
+        let resp = PBKDFParamResp::from_tlv(&get_root_node_struct(rx.payload())?)?;
 
         // Verify echoed random matches
         if resp.initiator_random.0 != self.initiator_random.access() {
@@ -287,7 +289,7 @@ impl<C: Crypto> PaseInitiator<C> {
         }
 
         // Parse Pake2
-        let pake2 = Pake2::from_tlv(&TLVElement::new(rx.payload()))?;
+        let pake2 = Pake2::from_tlv(&get_root_node_struct(rx.payload())?)?;
 
         // Extract pB and cB
         let pb: CanonEcPointRef<'_> = pake2.pb.0.try_into()?;
